@@ -373,7 +373,7 @@ impl Gen {
         }
         r -= w_store;
         if r < w_root {
-            if kind == Cb::MutateRoot {
+            if kind.root_mut() {
                 let i = self.rng.below(4);
                 let v = self.slot_value(w, ai, weak_bias);
                 self.push(ai, Op::RootStore { i, v });
@@ -546,7 +546,20 @@ impl Gen {
             let n = 1 + self.rng.below(9);
             self.cb_stack.push((ai, n));
         } else if r < p_mut + p_mroot {
-            self.push(ai, Op::Enter(Cb::MutateRoot));
+            // the root-replacing entry points: mutate_root mostly; map_root / try_map_root (Ok) too;
+            // a failing try_map_root consumes the arena, so only rarely and not in the numeric profiles
+            let k = self.rng.below(20);
+            let owning_ok = !matches!(self.profile, Profile::Soak);
+            let kind = if !owning_ok || k < 12 {
+                Cb::MutateRoot
+            } else if k < 16 {
+                Cb::MapRoot
+            } else if k < 19 || !matches!(self.profile, Profile::Fault | Profile::Multi | Profile::Core | Profile::Barrier) || !self.rng.chance(1, 4) {
+                Cb::TryMapRootOk
+            } else {
+                Cb::TryMapRootErr
+            };
+            self.push(ai, Op::Enter(kind));
             let n = 1 + self.rng.below(9);
             self.cb_stack.push((ai, n));
         } else if r < p_mut + p_mroot + p_collect {
@@ -592,6 +605,23 @@ impl Gen {
 }
 
 impl Source for Gen {
+    fn want_ctor(&mut self, _w: &World, ai: usize) -> Option<Cb> {
+        if matches!(self.profile, Profile::Soak) || !self.rng.chance(1, 4) {
+            return None;
+        }
+        let k = self.rng.below(16);
+        let kind = if k < 9 {
+            Cb::NewCtor
+        } else if k < 15 || !matches!(self.profile, Profile::Fault | Profile::Multi) {
+            Cb::TryNewOk
+        } else {
+            Cb::TryNewErr
+        };
+        let n = 1 + self.rng.below(7);
+        self.cb_stack.push((ai, n));
+        Some(kind)
+    }
+
     fn want_finalize(&mut self, _w: &World, ai: usize) -> bool {
         let n = 1 + self.rng.below(8);
         self.cb_stack.push((ai, n));
@@ -669,6 +699,17 @@ pub struct Replay {
 }
 
 impl Source for Replay {
+    fn want_ctor(&mut self, _w: &World, ai: usize) -> Option<Cb> {
+        match self.ops.front() {
+            Some((a, Op::Enter(k))) if *a == ai && k.is_ctor() => {
+                let k = *k;
+                self.ops.pop_front();
+                Some(k)
+            }
+            _ => None,
+        }
+    }
+
     fn want_finalize(&mut self, _w: &World, ai: usize) -> bool {
         if matches!(self.ops.front(), Some((a, Op::Enter(Cb::Finalize))) if *a == ai) {
             self.ops.pop_front();
